@@ -21,6 +21,9 @@ type C16Case struct {
 	Now    int64       `json:"now"` // clock of the pass (micros)
 	Rows   []C05Row    `json:"rows"`
 	Mode   string      `json:"mode"` // force | fresh (non-forced right after activity) | aged (non-forced, activity aged 6 min)
+	// Via: if set, the table is created with these rules and then brought to Fams by ModifyColumnFamilies updates
+	// (a rule replaced, removed or added later must be the one the pass applies)
+	Via []bt.FamDef `json:"via,omitempty"`
 }
 
 const c16Now = int64(10_000_000_000) // 10 000 s
@@ -76,6 +79,11 @@ func genC16() *rapid.Generator[C16Case] {
 			c.Fams = append(c.Fams, bt.FamDef{Name: f, GC: r})
 			gcCutoffs(r, c.Now, &cuts)
 		}
+		if rapid.IntRange(0, 3).Draw(t, "via") == 0 {
+			for _, f := range []string{"f", "g", "h"} {
+				c.Via = append(c.Via, bt.FamDef{Name: f, GC: genGCRule(1).Draw(t, "via-"+f)})
+			}
+		}
 		tsPool := []int64{1000, c.Now - 1000, c.Now - c.Now%1000, c.Now - c.Now%1000 + 1000, c.Now - 3600*1000000, c.Now - 3600*1000000 - 1000, c.Now - 1000000, c.Now - 2000000}
 		for _, cu := range cuts {
 			b := cu - cu%1000
@@ -106,10 +114,22 @@ func genC16() *rapid.Generator[C16Case] {
 	})
 }
 
-func c16Load(s *bt.Srv, m *bt.Model, table string, fams []bt.FamDef, rows []C05Row) string {
+func c16Load(s *bt.Srv, m *bt.Model, table string, fams []bt.FamDef, rows []C05Row, via ...bt.FamDef) string {
 	op := &bt.Op{K: "CreateTable", Table: table, Fams: fams}
+	if len(via) == len(fams) {
+		op.Fams = via
+	}
 	if mis := m.Step(op, s.Exec(op)); mis != "" {
 		return mis
+	}
+	if len(via) == len(fams) {
+		up := &bt.Op{K: "ModifyCF", Table: table}
+		for _, f := range fams {
+			up.Mods = append(up.Mods, bt.Mod{K: "update", ID: f.Name, GC: f.GC})
+		}
+		if mis := m.Step(up, s.Exec(up)); mis != "" {
+			return mis
+		}
 	}
 	for _, r := range rows {
 		var muts []bt.Mut
@@ -133,7 +153,7 @@ func runC16(c C16Case, ev *vt.Ev) *vt.Failure {
 	m := bt.NewModel()
 	s.SetClock(c.Now)
 	m.Clock = c.Now
-	if mis := c16Load(s, m, "t", c.Fams, c.Rows); mis != "" {
+	if mis := c16Load(s, m, "t", c.Fams, c.Rows, c.Via...); mis != "" {
 		return vt.Failf("C16", "setup: %s", mis)
 	}
 	// a second table without rules but identical content must never change
